@@ -32,6 +32,49 @@
 //	                      number of iterations left, code_gslice.go), and a rewrite of a `range` loop with
 //	                      an element variable into an index loop (or back) only moves the element read.
 //
+//	fallthrough           in an expression switch a clause whose body ends in `fallthrough` gets the body of the
+//	                      NEXT clause appended (a deep copy; Go: "fallthrough transfers control to the first
+//	                      statement of the next clause", whatever that clause's own case expressions say, and it
+//	                      may only be the final statement of a clause).  Done from the last clause to the first,
+//	                      so chains 7→6→5 unfold completely; the switch is then an ordinary one (chain of ifs in
+//	                      desugarSwitch).  Conditions: no name declared at the top level of the falling clause
+//	                      (`:=`, var, const, type) occurs in the appended body (in Go the two bodies are separate
+//	                      scopes — after concatenation such a name would capture a use that referred to an outer
+//	                      variable), the appended body contains no label and no goto (labels cannot be duplicated).
+//	                      `break` in the copy still leaves the same switch.
+//
+//	tuple assignment      `a, b, … = e1, e2, …` (plain `=`, as many operands right as left, every left side a
+//	                      variable, a field path or `_`) in a statement list, where some e_j READS the root
+//	                      variable of an EARLIER left side a_i (i < j) — only then does the order "all right
+//	                      sides first, then the assignments left to right" (Go) differ from assigning one after
+//	                      the other.  Let m be the last such j: the statement becomes
+//	                      `t1 := e1; …; tm := em; a1 = t1; …; am = tm; a(m+1), … = e(m+1), …` with names t_k that
+//	                      occur nowhere in the file (operands that are literals get no temporary — a literal has no
+//	                      evaluation — so that an untyped constant keeps its context type).  The rest, and every tuple
+//	                      assignment without such a dependency (`n, k = n+nn, k+kk`), is split by the translator
+//	                      itself (code_stmt.go assign: one after the other; tupleDependency below is the shared test).
+//	                      Not applied to `:=`, to index/pointer left sides, or outside a statement list (if/for
+//	                      headers): the translator refuses those when there is a dependency.
+//
+//	local copy of a       `v := P` (also as one pair of `v, w := P, Q`) where P is a field path `r.a.b` on the
+//	slice field           receiver or a parameter r and the DECLARED type of the field is a slice `[]T` (looked up
+//	                      in the struct declarations of the package, promoted fields by Go's rule): v is a second
+//	                      name for the same header and the same array as long as neither header changes, so every
+//	                      use of v in the rest of the block is replaced by P and the pair is dropped.  This is what
+//	                      makes `table := f.table; …; table[h] = e` (hoisting a field into a local) expressible: in
+//	                      the value model a write through a local alias would be lost (and is refused,
+//	                      code_parse.go), a write to `f.table[h]` is the same write in Go.  Conditions over the
+//	                      rest of the block: v is declared exactly once in the function and never assigned
+//	                      (also not re-sliced in place), redeclared or has its address taken; r is not assigned;
+//	                      P and its prefixes are not assigned as a whole, not the receiver of a method call, not
+//	                      handed to a callee and do not have their address taken; no closure, go, defer (stableIn).
+//	                      An ARRAY-typed field is a value copy and is left alone (that is why the declared type
+//	                      is needed); so is everything whose type cannot be found.  The same substitution is made
+//	                      for a field whose declared type is a predeclared number / bool / string type
+//	                      (`mask, shift := f.mask, f.shift`): under the same conditions P keeps its value, so the
+//	                      local is P; hoisting a loop-invariant field into a local then gives the same translation
+//	                      (otherwise the local becomes an extra parameter of the loop function).
+//
 // (The other normalisation, zeroing loop ↦ `clear`, needs the element type and lives in
 // code_slice.go: clearIdiom.)
 package main
@@ -366,9 +409,17 @@ func rootIdentOfExpr(e ast.Expr) string {
 // ---------------------------------------------------------------- the pass
 
 func desugarFile(f *ast.File) {
+	names := map[string]bool{}
+	ast.Inspect(f, func(n ast.Node) bool {
+		if id, ok := n.(*ast.Ident); ok {
+			names[id.Name] = true
+		}
+		return true
+	})
+	fresh := 0
 	for _, d := range f.Decls {
 		if fd, ok := d.(*ast.FuncDecl); ok && fd.Body != nil {
-			ds := &desugarer{fd: fd}
+			ds := &desugarer{fd: fd, names: names, fresh: &fresh}
 			ds.block(&fd.Body.List)
 			ds.loops(fd.Body)
 		}
@@ -379,7 +430,9 @@ func desugarFile(f *ast.File) {
 var desugaredConsts = map[*ast.GenDecl]bool{}
 
 type desugarer struct {
-	fd *ast.FuncDecl
+	fd    *ast.FuncDecl
+	names map[string]bool // every identifier of the file (for fresh names)
+	fresh *int
 }
 
 // block applies the block-level rules (local constants, element pointers) to a statement list
@@ -397,6 +450,21 @@ func (d *desugarer) block(list *[]ast.Stmt) {
 		if as, ok := s.(*ast.AssignStmt); ok {
 			if repl := d.elemPointer(as, (*list)[k+1:]); repl != nil {
 				(*list)[k] = repl
+				continue
+			}
+			if changed, drop := d.sliceFieldCopy(as, (*list)[k+1:]); changed {
+				if drop {
+					*list = append(append([]ast.Stmt{}, (*list)[:k]...), (*list)[k+1:]...)
+					k--
+				}
+				continue
+			}
+			if repl := d.tupleAssign(as); repl != nil {
+				nl := append([]ast.Stmt{}, (*list)[:k]...)
+				nl = append(nl, repl...)
+				nl = append(nl, (*list)[k+1:]...)
+				*list = nl
+				k += len(repl) - 1
 				continue
 			}
 		}
@@ -422,6 +490,7 @@ func (d *desugarer) nested(s ast.Stmt) {
 	case *ast.LabeledStmt:
 		d.nested(x.Stmt)
 	case *ast.SwitchStmt:
+		unfoldFallthrough(x)
 		for _, cc := range x.Body.List {
 			d.block(&cc.(*ast.CaseClause).Body)
 		}
@@ -688,4 +757,392 @@ func countingLoop(x *ast.ForStmt) ast.Stmt {
 		return nil
 	}
 	return &ast.RangeStmt{For: x.For, Key: i, TokPos: init.TokPos, Tok: token.DEFINE, Range: x.For, X: P, Body: x.Body}
+}
+
+// ---------------------------------------------------------------- fallthrough
+
+// cloneNode: a deep copy of a syntax tree (positions kept, so messages still point into the source;
+// the resolver's Object/Scope links are dropped — nothing in this program reads them).
+func cloneNode[T ast.Node](n T) T {
+	return cloneValue(reflect.ValueOf(n)).Interface().(T)
+}
+
+func cloneValue(v reflect.Value) reflect.Value {
+	switch v.Kind() {
+	case reflect.Interface:
+		if v.IsNil() {
+			return v
+		}
+		out := reflect.New(v.Type()).Elem()
+		out.Set(cloneValue(v.Elem()))
+		return out
+	case reflect.Ptr:
+		if v.IsNil() {
+			return v
+		}
+		if t := v.Type().Elem(); t == objectType || t == scopeType {
+			return reflect.Zero(v.Type())
+		}
+		out := reflect.New(v.Type().Elem())
+		out.Elem().Set(cloneValue(v.Elem()))
+		return out
+	case reflect.Struct:
+		out := reflect.New(v.Type()).Elem()
+		for i := 0; i < v.NumField(); i++ {
+			if out.Field(i).CanSet() {
+				out.Field(i).Set(cloneValue(v.Field(i)))
+			}
+		}
+		return out
+	case reflect.Slice:
+		if v.IsNil() {
+			return v
+		}
+		out := reflect.MakeSlice(v.Type(), v.Len(), v.Len())
+		for i := 0; i < v.Len(); i++ {
+			out.Index(i).Set(cloneValue(v.Index(i)))
+		}
+		return out
+	}
+	return v
+}
+
+// topLevelDecls: the names a statement list declares in its own scope (not in nested blocks).
+func topLevelDecls(list []ast.Stmt) map[string]bool {
+	m := map[string]bool{}
+	for _, s := range list {
+		switch x := s.(type) {
+		case *ast.AssignStmt:
+			if x.Tok == token.DEFINE {
+				for _, l := range x.Lhs {
+					if id, ok := l.(*ast.Ident); ok {
+						m[id.Name] = true
+					}
+				}
+			}
+		case *ast.DeclStmt:
+			if gd, ok := x.Decl.(*ast.GenDecl); ok {
+				for _, sp := range gd.Specs {
+					switch y := sp.(type) {
+					case *ast.ValueSpec:
+						for _, id := range y.Names {
+							m[id.Name] = true
+						}
+					case *ast.TypeSpec:
+						m[y.Name.Name] = true
+					}
+				}
+			}
+		}
+	}
+	return m
+}
+
+// unfoldFallthrough: see the header.  Clauses whose conditions fail keep their `fallthrough`
+// (the translator and the interpreter refuse it).
+func unfoldFallthrough(x *ast.SwitchStmt) {
+	cls := x.Body.List
+	for i := len(cls) - 2; i >= 0; i-- {
+		cc := cls[i].(*ast.CaseClause)
+		n := len(cc.Body)
+		if n == 0 {
+			continue
+		}
+		br, ok := cc.Body[n-1].(*ast.BranchStmt)
+		if !ok || br.Tok != token.FALLTHROUGH {
+			continue
+		}
+		next := cls[i+1].(*ast.CaseClause)
+		own := topLevelDecls(cc.Body[:n-1])
+		safe := true
+		for _, s := range next.Body {
+			ast.Inspect(s, func(nd ast.Node) bool {
+				switch y := nd.(type) {
+				case *ast.Ident:
+					if own[y.Name] {
+						safe = false
+					}
+				case *ast.LabeledStmt:
+					safe = false
+				case *ast.BranchStmt:
+					if y.Tok == token.GOTO || y.Tok == token.FALLTHROUGH {
+						safe = false // (a fallthrough left in the next body: its own unfolding was refused)
+					}
+				}
+				return safe
+			})
+		}
+		if !safe {
+			continue
+		}
+		body := append([]ast.Stmt{}, cc.Body[:n-1]...)
+		for _, s := range next.Body {
+			body = append(body, cloneNode(s))
+		}
+		cc.Body = body
+	}
+}
+
+// ---------------------------------------------------------------- tuple assignment
+
+// tupleDependency: the last index j (≥ 1) such that rhs[j] mentions the root variable of an earlier
+// left side lhs[i], i < j; 0 if there is none (then assigning one after the other is what Go does,
+// up to the moment at which a panic of a later operand happens — the translator refuses operands that
+// may panic).  Roots, not paths: `s.W` and `s.ParserBuffer.W` may be the same location (promoted fields).
+func tupleDependency(lhs, rhs []ast.Expr) int {
+	last := 0
+	for j := 1; j < len(rhs) && j < len(lhs); j++ {
+		names := map[string]bool{}
+		for i := 0; i < j; i++ {
+			if r := rootIdentOfExpr(lhs[i]); r != "" && r != "_" {
+				names[r] = true
+			} else if r == "" {
+				// not a path (index, dereference, …): anything may be read
+				ids := map[string]bool{}
+				identsOf(lhs[i], ids)
+				for id := range ids {
+					names[id] = true
+				}
+			}
+		}
+		if usesIdent(rhs[j], names) {
+			last = j
+		}
+	}
+	return last
+}
+
+func isLiteralOperand(e ast.Expr) bool {
+	switch x := e.(type) {
+	case *ast.BasicLit:
+		return true
+	case *ast.ParenExpr:
+		return isLiteralOperand(x.X)
+	case *ast.UnaryExpr:
+		return (x.Op == token.SUB || x.Op == token.ADD || x.Op == token.XOR || x.Op == token.NOT) && isLiteralOperand(x.X)
+	case *ast.Ident:
+		return x.Name == "nil" || x.Name == "true" || x.Name == "false"
+	}
+	return false
+}
+
+// tupleAssign: see the header; nil when the rule does not apply.
+func (d *desugarer) tupleAssign(as *ast.AssignStmt) []ast.Stmt {
+	if as.Tok != token.ASSIGN || len(as.Lhs) < 2 || len(as.Lhs) != len(as.Rhs) {
+		return nil
+	}
+	for _, l := range as.Lhs {
+		if pathOf(l) == nil {
+			return nil
+		}
+	}
+	m := tupleDependency(as.Lhs, as.Rhs)
+	if m == 0 {
+		return nil
+	}
+	for _, n := range []string{"nil", "true", "false"} {
+		if declCounts(d.fd)[n] != 0 {
+			return nil // (a shadowed predeclared name would not be a literal)
+		}
+	}
+	var out, assigns []ast.Stmt
+	for i := 0; i <= m; i++ {
+		rhs := as.Rhs[i]
+		if !isLiteralOperand(rhs) {
+			var name string
+			for {
+				*d.fresh++
+				name = "tup" + itoa(*d.fresh)
+				if !d.names[name] {
+					break
+				}
+			}
+			d.names[name] = true
+			out = append(out, &ast.AssignStmt{Lhs: []ast.Expr{&ast.Ident{NamePos: rhs.Pos(), Name: name}},
+				TokPos: as.TokPos, Tok: token.DEFINE, Rhs: []ast.Expr{rhs}})
+			rhs = &ast.Ident{NamePos: rhs.Pos(), Name: name}
+		}
+		assigns = append(assigns, &ast.AssignStmt{Lhs: []ast.Expr{as.Lhs[i]}, TokPos: as.TokPos, Tok: token.ASSIGN, Rhs: []ast.Expr{rhs}})
+	}
+	out = append(out, assigns...)
+	if m+1 < len(as.Lhs) {
+		out = append(out, &ast.AssignStmt{Lhs: as.Lhs[m+1:], TokPos: as.TokPos, Tok: token.ASSIGN, Rhs: as.Rhs[m+1:]})
+	}
+	return out
+}
+
+// ---------------------------------------------------------------- local copies of slice fields
+
+// pkgStructs: the struct declarations of the package (collected by load() before the pass runs);
+// pkgTypeNames: every type name the package declares (a declared `int` would shadow the builtin).
+var pkgStructs = map[string]*ast.StructType{}
+var pkgTypeNames = map[string]bool{}
+
+var scalarTypeNames = map[string]bool{"int": true, "int8": true, "int16": true, "int32": true, "int64": true,
+	"uint": true, "uint8": true, "uint16": true, "uint32": true, "uint64": true, "uintptr": true, "byte": true,
+	"rune": true, "bool": true, "string": true, "float32": true, "float64": true}
+
+func collectPkgStructs(files map[string]*ast.File) {
+	pkgStructs = map[string]*ast.StructType{}
+	pkgTypeNames = map[string]bool{}
+	for _, f := range files {
+		for _, d := range f.Decls {
+			gd, ok := d.(*ast.GenDecl)
+			if !ok || gd.Tok != token.TYPE {
+				continue
+			}
+			for _, sp := range gd.Specs {
+				ts := sp.(*ast.TypeSpec)
+				pkgTypeNames[ts.Name.Name] = true
+				if st, ok := ts.Type.(*ast.StructType); ok && ts.TypeParams == nil {
+					pkgStructs[ts.Name.Name] = st
+				}
+			}
+		}
+	}
+}
+
+// structNameOf: T or *T naming a struct of the package ("" otherwise).
+func structNameOf(t ast.Expr) string {
+	if st, ok := t.(*ast.StarExpr); ok {
+		t = st.X
+	}
+	if id, ok := t.(*ast.Ident); ok && pkgStructs[id.Name] != nil {
+		return id.Name
+	}
+	return ""
+}
+
+// declaredFieldType: the declared type of the selector .f on struct `name` by Go's rule (shallowest depth
+// of embedding, unique there); nil if there is none or it is ambiguous.
+func declaredFieldType(name, f string) ast.Expr {
+	cur := []string{name}
+	for depth := 0; depth < 20 && len(cur) > 0; depth++ {
+		var found []ast.Expr
+		var next []string
+		for _, n := range cur {
+			st := pkgStructs[n]
+			if st == nil {
+				continue
+			}
+			for _, fl := range st.Fields.List {
+				if len(fl.Names) == 0 {
+					en := structNameOf(fl.Type)
+					base := fl.Type
+					if se, ok := base.(*ast.StarExpr); ok {
+						base = se.X
+					}
+					if id, ok := base.(*ast.Ident); ok && id.Name == f {
+						found = append(found, fl.Type)
+					}
+					if en != "" {
+						if _, ptr := fl.Type.(*ast.StarExpr); !ptr {
+							next = append(next, en)
+						} else {
+							return nil // an embedded pointer on the way: a field behind it may be shared; left alone
+						}
+					}
+					continue
+				}
+				for _, id := range fl.Names {
+					if id.Name == f {
+						found = append(found, fl.Type)
+					}
+				}
+			}
+		}
+		if len(found) > 1 {
+			return nil
+		}
+		if len(found) == 1 {
+			return found[0]
+		}
+		cur = next
+	}
+	return nil
+}
+
+// sliceFieldCopy: see the header.  changed: at least one pair was eliminated; drop: no pair is left.
+func (d *desugarer) sliceFieldCopy(as *ast.AssignStmt, rest []ast.Stmt) (changed, drop bool) {
+	if as.Tok != token.DEFINE || len(as.Lhs) != len(as.Rhs) {
+		return false, false
+	}
+	// the struct type of the receiver and of the parameters
+	rootType := map[string]string{}
+	fields := func(fl *ast.FieldList) {
+		if fl == nil {
+			return
+		}
+		for _, f := range fl.List {
+			if n := structNameOf(f.Type); n != "" {
+				for _, id := range f.Names {
+					rootType[id.Name] = n
+				}
+			}
+		}
+	}
+	fields(d.fd.Recv)
+	fields(d.fd.Type.Params)
+	counts := declCounts(d.fd)
+	var keepL, keepR []ast.Expr
+	for i := range as.Lhs {
+		v, ok := as.Lhs[i].(*ast.Ident)
+		path := pathOf(as.Rhs[i])
+		elim := false
+		if ok && v.Name != "_" && counts[v.Name] == 1 && len(path) >= 2 && rootType[path[0]] != "" && counts[path[0]] == 1 {
+			// the declared type of the path
+			name := rootType[path[0]]
+			var t ast.Expr
+			for j, f := range path[1:] {
+				t = declaredFieldType(name, f)
+				if t == nil {
+					break
+				}
+				if j < len(path)-2 {
+					if _, ptr := t.(*ast.StarExpr); ptr {
+						t = nil // a pointer field on the way
+						break
+					}
+					name = structNameOf(t)
+					if name == "" {
+						t = nil
+						break
+					}
+				}
+			}
+			eligible := false
+			if at, isArr := t.(*ast.ArrayType); isArr && at.Len == nil {
+				eligible = true
+			}
+			if id, isId := t.(*ast.Ident); isId && scalarTypeNames[id.Name] && !pkgTypeNames[id.Name] && counts[id.Name] == 0 {
+				eligible = true // a number, bool or string: a plain value; P is stable, so v = P throughout
+			}
+			if eligible {
+				// the other pairs of the same statement must not be affected: v and P do not occur in them
+				clean := true
+				for j := range as.Rhs {
+					if j != i && usesIdent(as.Rhs[j], map[string]bool{v.Name: true}) {
+						clean = false
+					}
+				}
+				if clean && stableIn(rest, map[string]bool{v.Name: true, path[0]: true}, path) {
+					elim = true
+				}
+			}
+		}
+		if !elim {
+			keepL = append(keepL, as.Lhs[i])
+			keepR = append(keepR, as.Rhs[i])
+			continue
+		}
+		for _, s := range rest {
+			substIdent(s, v.Name, as.Rhs[i])
+		}
+		changed = true
+	}
+	if !changed {
+		return false, false
+	}
+	as.Lhs, as.Rhs = keepL, keepR
+	return true, len(keepL) == 0
 }
